@@ -372,6 +372,8 @@ impl FieldElement2625x4 {
     /// The coefficients of the result are bounded with \\( b < 1 \\).
     #[inline]
     pub fn negate_lazy(&self) -> FieldElement2625x4 {
+        #[cfg(curve25519_dalek_verif)]
+        crate::verif::monitor::avx2("avx2.negate_lazy", &self.0, 0.999);
         // The limbs of self are bounded with b < 0.999, while the
         // smallest limb of 2*p is 67108845 > 2^{26+0.9999}, so
         // underflows are not possible.
@@ -395,6 +397,8 @@ impl FieldElement2625x4 {
     /// The coefficients of the result are bounded with \\( b < 1.6 \\).
     #[inline]
     pub fn diff_sum(&self) -> FieldElement2625x4 {
+        #[cfg(curve25519_dalek_verif)]
+        crate::verif::monitor::avx2("avx2.diff_sum", &self.0, 0.01);
         // tmp1 = (B, A, D, C)
         let tmp1 = self.shuffle(Shuffle::BADC);
         // tmp2 = (-A, B, -C, D)
@@ -595,6 +599,8 @@ impl FieldElement2625x4 {
     /// The coefficients of the result are bounded with \\( b < 0.007 \\).
     #[rustfmt::skip] // keep alignment of z* calculations
     pub fn square_and_negate_D(&self) -> FieldElement2625x4 {
+        #[cfg(curve25519_dalek_verif)]
+        crate::verif::monitor::avx2("avx2.square_and_negate_D", &self.0, 1.5);
         #[inline(always)]
         fn m(x: u32x8, y: u32x8) -> u64x4 {
             x.mul32(y)
@@ -699,6 +705,8 @@ impl Neg for FieldElement2625x4 {
     /// The coefficients of the result are bounded with \\( b < 0.0002 \\).
     #[inline]
     fn neg(self) -> FieldElement2625x4 {
+        #[cfg(curve25519_dalek_verif)]
+        crate::verif::monitor::avx2("avx2.neg", &self.0, 3.9999);
         FieldElement2625x4([
             P_TIMES_16_LO - self.0[0],
             P_TIMES_16_HI - self.0[1],
@@ -736,6 +744,8 @@ impl Mul<(u32, u32, u32, u32)> for FieldElement2625x4 {
     /// The coefficients of the result are bounded with \\( b < 0.007 \\).
     #[inline]
     fn mul(self, scalars: (u32, u32, u32, u32)) -> FieldElement2625x4 {
+        #[cfg(curve25519_dalek_verif)]
+        crate::verif::monitor::avx2("avx2.mul_by_constants", &self.0, 5.9);
         let consts = u32x8::new(scalars.0, 0, scalars.1, 0, scalars.2, 0, scalars.3, 0);
 
         let (b0, b1) = unpack_pair(self.0[0]);
@@ -777,6 +787,11 @@ impl Mul<&FieldElement2625x4> for &FieldElement2625x4 {
     #[rustfmt::skip] // keep alignment of z* calculations
     #[inline]
     fn mul(self, rhs: &FieldElement2625x4) -> FieldElement2625x4 {
+        #[cfg(curve25519_dalek_verif)]
+        {
+            crate::verif::monitor::avx2("avx2.mul.lhs", &self.0, 2.5);
+            crate::verif::monitor::avx2("avx2.mul.rhs", &rhs.0, 1.75);
+        }
         #[inline(always)]
         fn m(x: u32x8, y: u32x8) -> u64x4 {
             x.mul32(y)
